@@ -32,7 +32,15 @@ MANIFEST = {
             'equal an earlier stripped line (cutDef_correct_partial; the unrestricted statement is refuted by a '
             'witness that is replayed on the real code); normalisation is idempotent; graph validation accepted '
             'implies start task exists, every transition target / requirement exists, every join has enough inbound '
-            'tasks. Schema level (Props.C14Schema, over the generated schemas): for every spec class, a value its '
+            'tasks and (reverse) requires has no cycle, also through task-defaults requires (accept_iff_wellformed with '
+            'the validator rule of repo fix fd108744 = Mistral.Reverse.requiresAcyclic, complete and sound: '
+            'requiresAcyclic_iff); accepted reverse definitions are runnable: accepted_reverse_never_blocked (for any '
+            'existing target, whatever tasks have succeeded so far some not-yet-succeeded needed task has all its '
+            'requirements succeeded) and accepted_reverse_run_finishes (every run of the model Mistral.Reverse '
+            'without operator commands ends ERROR with a failed task or SUCCESS with the target succeeded); the graph '
+            'stream carries cyclic-requires case classes (mutual, longer cycle, through task-defaults, '
+            'self-requirement) and a monitor that no accepted reverse definition has a requires cycle. '
+            'Schema level (Props.C14Schema, over the generated schemas): for every spec class, a value its '
             'schema accepts has the shape the constructor relies on without checking (tasks a non-empty dict of '
             'non-empty string-keyed dicts, type direct/reverse, join all/one/non-negative integer, retry dict with '
             'delay and count or one-line string, with-items / requires string or list of strings, on-clauses exactly '
